@@ -130,6 +130,48 @@ pub fn gen(tier: Tier) -> BoxedStrategy<Scenario> {
         .boxed()
 }
 
+/// Four peers L, A, B, X. X dies; a few ticks later - when X's last packets have reached everybody, so all hold
+/// the same amount of its input - A drops it with `disconnect_player`. The link B -> L is slow (80..250 ms), so
+/// when A's notice reaches L, the newest thing L has heard from B still says "X connected, last frame N-k": L
+/// scans its endpoint map for the earliest cut-off, finds N-k, rolls back there (harmlessly: its own last frame
+/// for X stays N) and keeps doing so until B's reports catch up. Which frame L rolls back to must not depend on the
+/// order in which the map yields A (reports the drop) and B (reports the lowest frame). Windows of 24..40 frames keep
+/// the repeated rollbacks inside the prediction window (beyond it the unchanged tree panics: C10's known finding).
+pub fn stale_gossip_case(i: u64, seed: u64) -> Scenario {
+    let r = mix(seed ^ 0x57a1e, i);
+    let mut sc = Scenario::basic(r, 4);
+    sc.max_pred = [32u8, 40, 24, 48][(r % 4) as usize];
+    let d = [0u8, 0, 1, 2][((r >> 4) % 4) as usize];
+    for p in sc.peers.iter_mut() {
+        p.delay = d;
+    }
+    sc.sched = 0;
+    sc.notify_ms = 5000;
+    sc.timeout_ms = 10000;
+    sc.predictor = ((r >> 8) % 2) as u8;
+    let fast = (2 + (r >> 12) % 12) as u16;
+    sc.link = crate::sim::net::LinkProfile { loss: 0, dup: 0, lat_min: fast, lat_max: fast };
+    let (a, b) = if (r >> 16) % 2 == 0 { (1u8, 2u8) } else { (2u8, 1u8) };
+    let slow = (80 + (r >> 20) % 170) as u16;
+    let t0 = 90 + ((r >> 32) % 60) as u32;
+    // slow only from shortly before the death on: the handshake and the start are over the fast links, so all four
+    // peers run level (a peer that starts late over a slow link trails the others by up to a window)
+    sc.ops.push(Op::Slow { tick: t0 - 40, from: peer_addr(b as usize), to: peer_addr(0), len_ms: 4000, extra_ms: slow as u32 });
+    sc.ops.push(Op::Kill { tick: t0, peer: 3 });
+    // at least (fast latency) later, so that everybody holds X's last input
+    let after = (fast as u32 + 15) / 16 + 1 + ((r >> 40) % 4) as u32;
+    sc.ops.push(Op::Disconnect { tick: t0 + after, peer: a, handle: 3 });
+    sc.ticks = t0 + after + 60;
+    sc.settle = 150;
+    sc
+}
+
+pub fn eval_stale_gossip(sc: &Scenario) -> CaseResult {
+    let mut r = eval(sc);
+    r.classes.push("stale_gossip");
+    r
+}
+
 pub fn run_prop(ctx: &Ctx) -> PropReport {
     let mut rep = PropReport::new("C17", "exploration");
     let tier = ctx.tier;
@@ -143,6 +185,9 @@ pub fn run_prop(ctx: &Ctx) -> PropReport {
     rep.part(|| run_enum(ctx, "isolated_replicas",
         "C10's isolated-observer scenario (both remote endpoints time out in the same poll with different last frames), three replicas each: the order in which the endpoint map yields the two Disconnected events must not matter",
         ctx.tier.pick(300, 2000), move |i| super::c10::isolated_case(i, seed), eval, false));
+    rep.part(|| run_enum(ctx, "stale_gossip_replicas",
+        "4 peers L, A, B, X: X dies, a few ticks later (everybody holds all of its input) A drops it with disconnect_player; the link B -> L becomes slow (80..250 ms) shortly before, so when A's notice arrives the newest report L holds from B still names an earlier last frame for X: the earliest cut-off over L's endpoint map (and so the frame L rolls back to) must not depend on the order in which the map yields A and B; windows 24..48 keep the repeated rollbacks inside the window; three replicas each",
+        ctx.tier.pick(400, 3000), move |i| stale_gossip_case(i, seed), eval_stale_gossip, false));
     rep.floors.push(("replicas".into(), 0.3));
     rep.assumptions = vec![
         "hash order cannot be forced; every replica samples one fresh RandomState per map. A dependence that needs one specific order of k keys is missed by 3 replicas with probability about (1/k!)^2..1".into(),
